@@ -257,6 +257,23 @@ theorem reverse_lines_text_no_error (c t : List Nat) (bs : Nat) (hbs : 1 ≤ bs)
   obtain ⟨l, _, rfl⟩ := hx
   simp
 
+/-- text files in a SINGLE-BYTE encoding (latin-1, cp1252, …: a decoding `g` byte by byte that maps
+    LF to LF, CR to CR and nothing else to them): the yielded lines, decoded, are the lines of the
+    decoded text, last to first, for every block size -/
+theorem reverse_lines_single_byte_codec (g : Nat → Nat)
+    (h10 : ∀ c, (g c == 10) = (c == 10)) (h13 : ∀ c, (g c == 13) = (c == 13))
+    (c : List Nat) (bs : Nat) (hbs : 1 ≤ bs) :
+    (reverseIterLines c bs).map (·.map g) = (linesOf (c.map g)).reverse := by
+  have hb : ∀ x, bytesBreak (g x) = bytesBreak x := by
+    intro x; simp only [bytesBreak, h10, h13]
+  have hnl : ∀ x, isNL (g x) = isNL x := by
+    intro x; simp only [isNL, h10]
+  rw [reverse_lines c bs hbs, List.map_reverse]
+  congr 1
+  unfold linesOf bytesSplitlines endsNL
+  rw [aux_map bytesBreak g hb h10 h13, lastIs_map isNL g hnl, List.map_append]
+  split <;> simp
+
 /-! ## JSONLIterator -/
 
 variable {α ε : Type}
@@ -604,5 +621,8 @@ example : (jsonlReverse pyWs toyParse true 2 [194, 160, 51, 10, 51]).1 = [3] := 
 
 -- "a\n\nb\n": the lines [b"", b"b", b"", b"a"] reversed and joined by LF give the content back
 example : joinWith [10] (reverseIterLines [97, 10, 10, 98, 10] 2).reverse = [97, 10, 10, 98, 10] := by decide
+
+-- latin-1 is such a decoding (the identity on byte values): "é\nb" = e9 0a 62
+example : (reverseIterLines [233, 10, 98] 1).map (·.map id) = [[98], [233]] := by decide
 
 end C19
